@@ -2,7 +2,10 @@
 """Prints the markdown table of seeded changes for DESIGN.md section 11 from seeded/*/meta.json."""
 import json, glob, os
 ROOT = os.path.dirname(os.path.dirname(os.path.abspath(__file__)))
-rows = [json.load(open(mp)) for mp in sorted(glob.glob(os.path.join(ROOT, "seeded", "C*-m*", "meta.json")))]
+import re
+def order(mp):
+    k = os.path.basename(os.path.dirname(mp)); m = re.match(r"C(\d+)-m(\d+)", k); return (int(m.group(1)), int(m.group(2)))
+rows = [json.load(open(mp)) for mp in sorted(glob.glob(os.path.join(ROOT, "seeded", "C*-m*", "meta.json")), key=order)]
 print("| Seeded change | What it does | Caught by (quick tier; **own property** in bold) | Ran and stayed green |")
 print("|---|---|---|---|")
 own = other_only = missed = 0
